@@ -5,6 +5,7 @@
    taken from the implementation's `file` line of the same case. Lines starting with '@' are model-only
    observations (certificates, queries on the implementation's own structure). *)
 open Xmodel_core
+let docert = (try Sys.getenv "XMODEL_CERT" <> "0" with Not_found -> true)
 
 (* ---------- numbers ---------- *)
 let rec pos_of_i64 (i : int64) : positive =
@@ -230,6 +231,13 @@ let case_trie (c : case) =
        (match Hashtbl.find_opt impl_files c.id with
         | Some hex ->
           let ib = bytes_of_hex hex in
+          (* certificate (DESIGN.md 4.2): logical content of the implementation's file reassembles to the
+             same bytes and is well formed for K *)
+          if docert then begin
+            match load v ib with
+            | Ok p0 -> pr "@cert %s" (if cert_check v save p0 ib keys then "ok" else "FAIL")
+            | r -> pr "@cert FAIL load %s" (exc_or_fault r)
+          end;
           if ib <> save v p then begin
             pr "@drift builder-bytes-differ";
             (match load v ib with
@@ -249,6 +257,7 @@ let case_conc (c : case) =
     (match do_build c v bin keys with
      | Ok p0 ->
        pr "build ok";
+       pr "file %s" (hex_of_bytes (save v p0));
        let p = match src with
          | "load" -> (match load v (save v p0) with Ok p -> p | _ -> p0)
          | "mmap" -> (match mmap v (save v p0) with Ok p -> p | _ -> p0)
@@ -279,18 +288,18 @@ let case_bv (c : case) =
         | Ok v -> bv := Some v; pr "bv %s" (hex_of_bytes (enc_bv v))
         | r -> pr "bv %s" (exc_or_fault r))
     | ["GET"; i] -> (match !bv with Some v -> (match bv_get v (n_of_string i) with
-        | Ok x -> pr "get %s" (b01 x) | r -> pr "get %s" (exc_or_fault r)) | None -> ())
+        | Ok x -> pr "get %s" (b01 x) | r -> pr "get %s" (exc_or_fault r)) | None -> pr "error not-built %s" line)
     | ["RANK"; i] -> (match !bv with Some v -> (match bv_rank v (n_of_string i) with
-        | Ok x -> pr "rank %s" (string_of_n x) | r -> pr "rank %s" (exc_or_fault r)) | None -> ())
+        | Ok x -> pr "rank %s" (string_of_n x) | r -> pr "rank %s" (exc_or_fault r)) | None -> pr "error not-built %s" line)
     | ["SELECT"; i] -> (match !bv with Some v -> (match bv_select v (n_of_string i) with
-        | Ok x -> pr "select %s" (string_of_n x) | r -> pr "select %s" (exc_or_fault r)) | None -> ())
+        | Ok x -> pr "select %s" (string_of_n x) | r -> pr "select %s" (exc_or_fault r)) | None -> pr "error not-built %s" line)
     | ["ALL"] -> (match !bv with
         | Some v ->
           let size = int_of_n v.bv_size and ones = int_of_n v.bv_ones in
           let bb = Buffer.create size in
           for i = 0 to size - 1 do
             Buffer.add_string bb (match bv_get v (n_of_int i) with Ok x -> b01 x | _ -> "F") done;
-          pr "allget %s" (Buffer.contents bb);
+          pr "allget %s" (if size = 0 then "-" else Buffer.contents bb);
           if rank then
             pr "allrank %s" (comma (List.init (size + 1) (fun i -> match bv_rank v (n_of_int i) with
                 | Ok x -> string_of_n x | r -> exc_or_fault r)))
@@ -299,7 +308,7 @@ let case_bv (c : case) =
             pr "allselect %s" (comma (List.init ones (fun i -> match bv_select v (n_of_int i) with
                 | Ok x -> string_of_n x | r -> exc_or_fault r)))
           else pr "allselect -"
-        | None -> ())
+        | None -> pr "error not-built %s" line)
     | _ -> pr "error unknown-op %s" line) c.body
 
 let case_cv (c : case) =
@@ -310,9 +319,9 @@ let case_cv (c : case) =
         | Ok v -> cv := Some v; pr "cv %s" (hex_of_bytes (enc_cv v)) | r -> pr "cv %s" (exc_or_fault r))
     | ["ALL"] -> (match !cv with Some v ->
         pr "all %s" (comma (List.init (int_of_n v.cv_size) (fun i -> match cv_get v (n_of_int i) with
-            | Ok x -> string_of_n x | r -> exc_or_fault r))) | None -> ())
+            | Ok x -> string_of_n x | r -> exc_or_fault r))) | None -> pr "error not-built %s" line)
     | ["GET"; i] -> (match !cv with Some v -> (match cv_get v (n_of_string i) with
-        | Ok x -> pr "get %s" (string_of_n x) | r -> pr "get %s" (exc_or_fault r)) | None -> ())
+        | Ok x -> pr "get %s" (string_of_n x) | r -> pr "get %s" (exc_or_fault r)) | None -> pr "error not-built %s" line)
     | _ -> pr "error unknown-op %s" line) c.body
 
 let case_bc (c : case) =
@@ -330,13 +339,13 @@ let case_bc (c : case) =
           pr "counts %s %s %s %s" (string_of_n (bc_num_units d)) (string_of_n (bc_num_free_units d))
             (string_of_n (bc_num_nodes d)) (string_of_n (bc_num_leaves d));
           let leaf i = match bc_is_leaf d (n_of_int i) with Ok x -> x | _ -> false in
-          pr "allleaf %s" (String.concat "" (List.init nu (fun i -> match bc_is_leaf d (n_of_int i) with
+          pr "allleaf %s" (if nu = 0 then "-" else String.concat "" (List.init nu (fun i -> match bc_is_leaf d (n_of_int i) with
               | Ok x -> b01 x | _ -> "F")));
           let sr = function Ok x -> string_of_n x | r -> exc_or_fault r in
           pr "allcheck %s" (comma (List.init nu (fun i -> sr (bc_check d (n_of_int i)))));
           pr "allbase %s" (comma (List.init nu (fun i -> if leaf i then "-" else sr (bc_base d (n_of_int i)))));
           pr "alllink %s" (comma (List.init nu (fun i -> if leaf i then sr (bc_link d (n_of_int i)) else "-")))
-        | None -> ())
+        | None -> pr "error not-built %s" line)
     | _ -> pr "error unknown-op %s" line) c.body
 
 let case_tail (c : case) =
@@ -347,7 +356,7 @@ let case_tail (c : case) =
       let np' = n_of_string np in
       (match tail_set_suffix !sufs (bytes_of_hex h) np' with
        | Ok s -> sufs := s; order := np :: !order
-       | _ -> pr "s exc")
+       | _ -> order := np :: !order; pr "s exc")
     | ["BUILD"] -> (match tail_complete bin !sufs with
         | Ok (t, asg) ->
           tv := Some t; pr "tail %s" (hex_of_bytes (enc_tail t));
@@ -356,11 +365,11 @@ let case_tail (c : case) =
               (match find np with Some t -> string_of_n t | None -> "?")) (List.rev !order)))
         | r -> pr "tail %s" (exc_or_fault r))
     | ["M"; h; tp] -> (match !tv with Some t -> (match t_match t (bytes_of_hex h) (n_of_string tp) with
-        | Ok x -> pr "m %s" (b01 x) | r -> pr "m %s" (exc_or_fault r)) | None -> ())
+        | Ok x -> pr "m %s" (b01 x) | r -> pr "m %s" (exc_or_fault r)) | None -> pr "error not-built %s" line)
     | ["PM"; h; tp] -> (match !tv with Some t -> (match t_prefix_match t (bytes_of_hex h) (n_of_string tp) with
-        | Ok (Some x) -> pr "pm %s" (string_of_n x) | Ok None -> pr "pm -" | r -> pr "pm %s" (exc_or_fault r)) | None -> ())
+        | Ok (Some x) -> pr "pm %s" (string_of_n x) | Ok None -> pr "pm -" | r -> pr "pm %s" (exc_or_fault r)) | None -> pr "error not-built %s" line)
     | ["DEC"; tp] -> (match !tv with Some t -> (match t_decode t (n_of_string tp) with
-        | Ok k -> pr "dec %s" (hex_of_bytes k) | r -> pr "dec %s" (exc_or_fault r)) | None -> ())
+        | Ok k -> pr "dec %s" (hex_of_bytes k) | r -> pr "dec %s" (exc_or_fault r)) | None -> pr "error not-built %s" line)
     | _ -> pr "error unknown-op %s" line) c.body
 
 let intr = (try Sys.getenv "XMODEL_INTR" = "1" with Not_found -> false)
